@@ -199,54 +199,97 @@ Proof.
 Qed.
 
 (* ------------------------------------------------------------------------------------------------ *)
+(* empty items of an object stream, the environment's view of the fetches                           *)
+(* ------------------------------------------------------------------------------------------------ *)
+
+Lemma skip_empty_none l : skip_empty l = None -> concat l = [].
+Proof.
+  induction l as [|c r IH]; [reflexivity|]. cbn [skip_empty]. destruct c; [|discriminate].
+  intros H. cbn. apply IH, H.
+Qed.
+
+Lemma skip_empty_some l : forall c r, skip_empty l = Some (c, r) ->
+  c <> [] /\ concat l = c ++ concat r /\ (forall x, In x r -> In x l).
+Proof.
+  induction l as [|c0 r0 IH]; intros c r H; [discriminate|]. cbn [skip_empty] in H. destruct c0 as [|x c0].
+  - destruct (IH c r H) as (H1 & H2 & H3). refine (conj H1 (conj _ _)).
+    + cbn. exact H2.
+    + intros y Hy. right. apply H3, Hy.
+  - injection H as <- <-. refine (conj _ (conj eq_refl _)); [discriminate|]. intros y Hy. now right.
+Qed.
+
+Lemma fetch_arrivals_nofeed k : forall kd sr,
+  fetch_arrivals k kd sr [] ++ concat (fetch_rest k kd sr) = concat sr.
+Proof.
+  induction k as [|k IH]; intros kd sr; cbn [fetch_arrivals fetch_rest hd tl app]; [reflexivity|].
+  destruct (pull kd default_max sr) as [[c r]|] eqn:P.
+  - rewrite <- app_assoc, IH. symmetry. apply (pull_spec _ _ _ _ _ P).
+  - reflexivity.
+Qed.
+
+Lemma fetch_rest_suffix k : forall kd sr, exists pulled, concat sr = pulled ++ concat (fetch_rest k kd sr).
+Proof.
+  induction k as [|k IH]; intros kd sr; cbn [fetch_rest]; [exists []; reflexivity|].
+  destruct (pull kd default_max sr) as [[c r]|] eqn:P; [|exists []; reflexivity].
+  destruct (IH kd r) as [q Hq]. exists (c ++ q). rewrite (pull_spec _ _ _ _ _ P), Hq, app_assoc. reflexivity.
+Qed.
+
+(* ------------------------------------------------------------------------------------------------ *)
 (* receive_until                                                                                    *)
 (* ------------------------------------------------------------------------------------------------ *)
 
-(* `pieces` = what the call read from the wrapped stream, one entry per read.  Reads happen only while the buffer
-   holds fewer than m bytes and no delimiter (second clause: the exact boundary condition). *)
-Definition until_post (b : list Z) (sr : list (list Z)) (d : list Z) (m : Z) (s' : st) (r : res)
-                      (pieces : list (list Z)) : Prop :=
-  concat sr = concat pieces ++ concat (src s') /\
-  (forall k, k < length pieces ->
-     ~ occurs d (b ++ concat (firstn k pieces)) /\
-     (Z.of_nat (length (b ++ concat (firstn k pieces))) < m)%Z) /\
-  (chunks_nonempty sr -> chunks_nonempty (src s')) /\
-  match r with
-  | RBytes x => b ++ concat pieces = x ++ d ++ buf s' /\
-                (forall j, j < length x -> ~ occurs_at d (b ++ concat pieces) j)
-  | RNotFound => buf s' = b ++ concat pieces /\ ~ occurs d (buf s') /\ (m <= Z.of_nat (length (buf s')))%Z
-  | RIncomplete => buf s' = b ++ concat pieces /\ src s' = [] /\ ~ occurs d (buf s') /\
-                   (Z.of_nat (length (buf s')) < m)%Z
-  | _ => False
-  end.
+(* The call made k fetches; lg = everything that arrived meanwhile (feeds and chunks, in order).  A fetch happens only
+   while the buffer holds no delimiter and fewer than m bytes (third clause: the exact boundary condition). *)
+Definition until_post (kd : kind) (b : list Z) (sr : list (list Z)) (d : list Z) (m : Z) (fs : list (list Z))
+                      (s' : st) (r : res) (lg : list Z) : Prop :=
+  exists k,
+    src s' = fetch_rest k kd sr /\ lg = fetch_arrivals k kd sr fs /\
+    (forall j, j < k ->
+       ~ occurs d (b ++ fetch_arrivals j kd sr fs) /\
+       (Z.of_nat (length (b ++ fetch_arrivals j kd sr fs)) < m)%Z) /\
+    (chunks_nonempty sr -> chunks_nonempty (src s')) /\
+    match r with
+    | RBytes x => b ++ lg = x ++ d ++ buf s' /\ (forall j, j < length x -> ~ occurs_at d (b ++ lg) j)
+    | RNotFound => buf s' = b ++ lg /\ ~ occurs d (buf s') /\ (m <= Z.of_nat (length (buf s')))%Z
+    | RIncomplete => buf s' = b ++ lg /\ src s' = [] /\
+                     exists k0, k = S k0 /\ lg = fetch_arrivals k0 kd sr fs ++ hd [] (skipn k0 fs)
+    | _ => False
+    end.
 
-Lemma until_post_cons b c sr r0 d m s' r pieces :
-  until_post (b ++ c) r0 d m s' r pieces ->
-  concat sr = c ++ concat r0 -> ~ occurs d b -> (Z.of_nat (length b) < m)%Z ->
-  (chunks_nonempty sr -> chunks_nonempty r0) ->
-  until_post b sr d m s' r (c :: pieces).
+Lemma until_post_cons kd b c sr r0 d m fs s' r lg :
+  until_post kd ((b ++ hd [] fs) ++ c) r0 d m (tl fs) s' r lg ->
+  pull kd default_max sr = Some (c, r0) -> ~ occurs d b -> (Z.of_nat (length b) < m)%Z ->
+  until_post kd b sr d m fs s' r (hd [] fs ++ c ++ lg).
 Proof.
-  intros (H1 & H2 & H3 & H4) Hsr Hno Hlen Hne.
-  assert (EQ : b ++ concat (c :: pieces) = (b ++ c) ++ concat pieces) by (cbn [concat]; apply app_assoc).
-  unfold until_post. refine (conj _ (conj _ (conj _ _))).
-  - cbn [concat]. rewrite Hsr, H1, app_assoc. reflexivity.
-  - intros k Hk. destruct k as [|k].
-    + cbn [firstn concat]. rewrite app_nil_r. split; assumption.
-    + cbn [firstn concat]. rewrite app_assoc. apply H2. cbn in Hk. lia.
-  - intros Hs. apply H3, Hne, Hs.
-  - destruct r; try exact H4; rewrite EQ; exact H4.
+  intros (k & H1 & H2 & H3 & H4 & H5) P Hno Hlen.
+  assert (EQ : forall X, b ++ hd [] fs ++ c ++ X = ((b ++ hd [] fs) ++ c) ++ X)
+    by (intros X; now rewrite <- !app_assoc).
+  exists (S k). cbn [fetch_rest fetch_arrivals]. rewrite P.
+  refine (conj H1 (conj _ (conj _ (conj _ _)))).
+  - rewrite H2. reflexivity.
+  - intros j Hj. destruct j as [|j].
+    + cbn [fetch_arrivals]. rewrite app_nil_r. split; assumption.
+    + cbn [fetch_arrivals]. rewrite P, EQ. apply H3. lia.
+  - intros Hs. apply H4. apply (pull_nonempty _ _ _ _ _ Hs default_max_pos P).
+  - destruct r; try exact H5; rewrite ?EQ.
+    + exact H5.
+    + destruct H5 as (A & B & k0 & -> & C). refine (conj A (conj B _)). exists (S k0). split; [reflexivity|].
+      cbn [fetch_arrivals]. rewrite P, C, <- !app_assoc.
+      replace (skipn (S k0) fs) with (skipn k0 (tl fs)) by (destruct fs; [now rewrite skipn_nil|reflexivity]).
+      reflexivity.
+    + exact H5.
 Qed.
 
-Lemma until_loop_spec fuel : forall s d m off s' r,
+Lemma until_loop_spec fuel : forall s d m off fs s' r lg,
   (forall j, j < off -> ~ occurs_at d (buf s) j) ->
   measure (src s) < fuel ->
-  until_loop fuel s d m off = (s', r) ->
-  knd s' = knd s /\ exists pieces, until_post (buf s) (src s) d m s' r pieces.
+  until_loop false fuel s d m off fs = (s', r, lg) ->
+  knd s' = knd s /\ until_post (knd s) (buf s) (src s) d m fs s' r lg.
 Proof.
-  induction fuel as [|f IH]; intros s d m off s' r Hinv Hm H; [lia|].
+  induction fuel as [|f IH]; intros s d m off fs s' r lg Hinv Hm H; [lia|].
   cbn [until_loop] in H.
   destruct (find_from d off (buf s)) as [i|] eqn:F.
-  - injection H as <- <-. split; [reflexivity|]. exists [].
+  - injection H as <- <- <-. split; [reflexivity|]. exists 0.
     destruct (find_from_some _ _ _ _ F) as (Hoi & Hocc & Hfirst).
     pose proof Hocc as (pre & post & E & L).
     assert (F1 : firstn i (buf s) = pre).
@@ -254,8 +297,8 @@ Proof.
     assert (F2 : skipn (i + length d) (buf s) = post).
     { rewrite E, app_assoc. rewrite skipn_app. rewrite skipn_all2 by (rewrite app_length; lia).
       rewrite app_length. replace (i + length d - (length pre + length d)) with 0 by lia. reflexivity. }
-    unfold until_post. cbn [src buf concat length]. rewrite !app_nil_r.
-    refine (conj eq_refl (conj _ (conj (fun h => h) (conj _ _)))).
+    cbn [src buf fetch_rest fetch_arrivals]. rewrite !app_nil_r.
+    refine (conj eq_refl (conj eq_refl (conj _ (conj (fun h => h) (conj _ _))))).
     + intros k Hk; lia.
     + rewrite F1, F2. exact E.
     + rewrite F1, L. intros j Hj. destruct (Nat.lt_ge_cases j off) as [Ho|Ho].
@@ -266,46 +309,50 @@ Proof.
       - apply (Hinv k Ho Hk).
       - apply (find_from_none _ _ _ F k Ho Hk). }
     destruct (m <=? Z.of_nat (length (buf s)))%Z eqn:Em.
-    + injection H as <- <-. split; [reflexivity|]. exists [].
-      unfold until_post. cbn [concat length]. rewrite !app_nil_r.
-      refine (conj eq_refl (conj _ (conj (fun h => h) (conj eq_refl (conj Hno _))))).
+    + injection H as <- <- <-. split; [reflexivity|]. exists 0.
+      cbn [fetch_rest fetch_arrivals]. rewrite !app_nil_r.
+      refine (conj eq_refl (conj eq_refl (conj _ (conj (fun h => h) (conj eq_refl (conj Hno _)))))).
       * intros k Hk; lia.
       * lia.
     + destruct (pull (knd s) default_max (src s)) as [[c r0]|] eqn:P.
-      * pose proof (pull_spec _ _ _ _ _ P) as Hc.
+      * destruct (until_loop false f (mk (knd s) ((buf s ++ hd [] fs) ++ c) r0) d m
+                             (length (buf s) + 1 - length d) (tl fs)) as [[s1 r1] lg1] eqn:R.
+        injection H as <- <- <-.
         pose proof (pull_measure _ _ _ _ _ P default_max_pos) as Hms.
-        specialize (IH (mk (knd s) (buf s ++ c) r0) d m (length (buf s) + 1 - length d) s' r).
-        cbn [buf src knd] in IH.
-        destruct IH as (Hk & pieces & Hp); [| lia | exact H |].
-        { intros j Hj. apply search_offset_complete; [|exact Hj].
+        assert (Hinv' : forall j, j < length (buf s) + 1 - length d ->
+                          ~ occurs_at d (buf (mk (knd s) ((buf s ++ hd [] fs) ++ c) r0)) j).
+        { cbn [buf]. intros j Hj. rewrite <- app_assoc. apply search_offset_complete; [|exact Hj].
           intros j' Hj'. apply Hno. exists j'. exact Hj'. }
-        split; [exact Hk|]. exists (c :: pieces).
-        apply (until_post_cons _ _ _ r0); [exact Hp | exact Hc | exact Hno | lia |].
-        intros Hs. apply (pull_nonempty _ _ _ _ _ Hs default_max_pos P).
-      * injection H as <- <-. split; [reflexivity|]. exists [].
-        apply pull_none in P.
-        unfold until_post. cbn [concat length]. rewrite !app_nil_r.
-        refine (conj eq_refl (conj _ (conj (fun h => h) (conj eq_refl (conj P (conj Hno _)))))).
-        -- intros k Hk; lia.
-        -- lia.
+        assert (Hm' : measure (src (mk (knd s) ((buf s ++ hd [] fs) ++ c) r0)) < f) by (cbn [src]; lia).
+        destruct (IH _ d m _ (tl fs) s1 r1 lg1 Hinv' Hm' R) as (Hk & Hp).
+        cbn [knd buf src] in Hk, Hp. split; [exact Hk|].
+        apply (until_post_cons _ _ _ _ r0); [exact Hp | exact P | exact Hno | lia].
+      * injection H as <- <- <-. split; [reflexivity|]. exists 1.
+        pose proof (pull_none _ _ _ P) as Hnil.
+        cbn [fetch_rest fetch_arrivals src buf]. rewrite P, !app_nil_r.
+        refine (conj eq_refl (conj eq_refl (conj _ (conj (fun h => h) (conj eq_refl (conj Hnil _)))))).
+        -- intros k Hk. assert (k = 0) by lia. subst k. cbn [fetch_arrivals]. rewrite app_nil_r. split; [exact Hno|lia].
+        -- exists 0. split; reflexivity.
 Qed.
 
-(* the offset is an optimisation only: receive_until behaves exactly as if it searched the whole buffer each time *)
-Lemma until_loop_naive fuel : forall s d m off,
+(* the offset is an optimisation only: receive_until behaves exactly as if it searched the whole buffer each time,
+   whatever is fed while it waits *)
+Lemma until_loop_naive fuel : forall s d m off fs,
   (forall j, j < off -> ~ occurs_at d (buf s) j) ->
-  until_loop fuel s d m off = until_naive fuel s d m.
+  until_loop false fuel s d m off fs = until_naive fuel s d m fs.
 Proof.
-  induction fuel as [|f IH]; intros s d m off Hinv; [reflexivity|].
+  induction fuel as [|f IH]; intros s d m off fs Hinv; [reflexivity|].
   cbn [until_loop until_naive]. rewrite (find_from_offset d off (buf s) Hinv).
   destruct (find_from d 0 (buf s)) as [i|] eqn:F; [reflexivity|].
   destruct (m <=? Z.of_nat (length (buf s)))%Z; [reflexivity|].
   destruct (pull (knd s) default_max (src s)) as [[c r0]|]; [|reflexivity].
-  apply IH. cbn [buf]. intros j Hj. apply search_offset_complete; [|exact Hj].
+  rewrite IH; [reflexivity|]. cbn [buf]. intros j Hj. rewrite <- app_assoc.
+  apply search_offset_complete; [|exact Hj].
   intros j' Hj'. apply (find_from_none _ _ _ F j'); [lia|exact Hj'].
 Qed.
 
-Theorem until_offset_sound s d m : step s (Until d m) = until_naive (fuel_of s) s d m.
-Proof. cbn [step]. apply until_loop_naive. intros j Hj; lia. Qed.
+Theorem until_offset_sound s d m fs : step_log s (Until d m fs) = until_naive (fuel_of s) s d m fs.
+Proof. unfold step_log. cbn [step_gen]. apply until_loop_naive. intros j Hj; lia. Qed.
 
 (* ------------------------------------------------------------------------------------------------ *)
 (* receive_exactly                                                                                  *)
@@ -323,260 +370,291 @@ Definition exactly_post (b : list Z) (sr : list (list Z)) (n : Z) (s' : st) (r :
   | _ => False
   end.
 
-Lemma exactly_loop_spec fuel : forall s n s' r,
+Lemma exactly_loop_spec fuel : forall s n s' r lg,
   measure (src s) < fuel ->
-  exactly_loop fuel s n = (s', r) ->
-  knd s' = knd s /\ exists pulled, exactly_post (buf s) (src s) n s' r pulled.
+  exactly_loop fuel s n = (s', r, lg) ->
+  knd s' = knd s /\ exactly_post (buf s) (src s) n s' r lg.
 Proof.
-  induction fuel as [|f IH]; intros s n s' r Hm H; [lia|].
+  induction fuel as [|f IH]; intros s n s' r lg Hm H; [lia|].
   cbn [exactly_loop] in H.
   destruct (n - Z.of_nat (length (buf s)) <=? 0)%Z eqn:E.
-  - injection H as <- <-. split; [reflexivity|]. exists [].
+  - injection H as <- <- <-. split; [reflexivity|].
     unfold exactly_post. cbn [src buf]. rewrite !app_nil_r.
     refine (conj eq_refl (conj (fun h => h) (conj (or_introl eq_refl) (conj eq_refl (conj eq_refl _))))). lia.
   - set (ask := match knd s with KByte => Z.to_nat (n - Z.of_nat (length (buf s))) | KObject => default_max end) in H.
     assert (Hask : 1 <= ask).
     { unfold ask. destruct (knd s); [lia|apply default_max_pos]. }
     destruct (pull (knd s) ask (src s)) as [[c r0]|] eqn:P.
-    + pose proof (pull_spec _ _ _ _ _ P) as Hc.
+    + destruct (exactly_loop f (mk (knd s) (buf s ++ c) r0) n) as [[s1 r1] lg1] eqn:R.
+      injection H as <- <- <-.
+      pose proof (pull_spec _ _ _ _ _ P) as Hc.
       pose proof (pull_measure _ _ _ _ _ P Hask) as Hms.
-      specialize (IH (mk (knd s) (buf s ++ c) r0) n s' r). cbn [buf src knd] in IH.
-      destruct IH as (Hk & pulled & H1 & H2 & H3 & H4); [lia | exact H |].
-      split; [exact Hk|]. exists (c ++ pulled). unfold exactly_post.
+      assert (Hm' : measure (src (mk (knd s) (buf s ++ c) r0)) < f) by (cbn [src]; lia).
+      destruct (IH _ n s1 r1 lg1 Hm' R) as (Hk & H1 & H2 & H3 & H4).
+      cbn [buf src knd] in Hk, H1, H2, H3, H4.
+      split; [exact Hk|]. unfold exactly_post.
       refine (conj _ (conj _ (conj _ _))).
       * rewrite Hc, H1, app_assoc. reflexivity.
       * intros Hs. apply H2. apply (pull_nonempty _ _ _ _ _ Hs Hask P).
       * right. lia.
       * rewrite app_assoc. exact H4.
-    + injection H as <- <-. split; [reflexivity|]. exists []. apply pull_none in P.
+    + injection H as <- <- <-. split; [reflexivity|]. apply pull_none in P.
       unfold exactly_post. rewrite !app_nil_r.
       refine (conj eq_refl (conj (fun h => h) (conj (or_introl eq_refl) (conj eq_refl (conj P _))))). lia.
 Qed.
 
 (* ------------------------------------------------------------------------------------------------ *)
-(* one step: conservation                                                                           *)
+(* one step: conservation and the arrival log                                                       *)
 (* ------------------------------------------------------------------------------------------------ *)
-
-Definition fed_of (o : op) : list Z := match o with Feed d => d | _ => [] end.
 
 Lemma firstn_cut_split (l : list Z) k : l = firstn k l ++ skipn k l.
 Proof. symmetry. apply firstn_skipn. Qed.
 
-Theorem step_conservation s o s' r : step s o = (s', r) ->
+Definition log_spec (s : st) (o : op) (s' : st) (lg : list Z) : Prop :=
+  match o with
+  | Feed d => lg = d /\ src s' = src s
+  | Until d m fs => exists k, src s' = fetch_rest k (knd s) (src s) /\ lg = fetch_arrivals k (knd s) (src s) fs
+  | _ => concat (src s) = lg ++ concat (src s')
+  end.
+
+Theorem step_conservation s o s' r lg : step_log s o = (s', r, lg) ->
   knd s' = knd s /\ r <> RFuel /\
   (chunks_nonempty (src s) -> chunks_nonempty (src s')) /\
-  exists pulled,
-    concat (src s) = pulled ++ concat (src s') /\
-    buf s ++ fed_of o ++ pulled = consumed_of o r ++ buf s'.
+  buf s ++ lg = consumed_of o r ++ buf s' /\
+  (exists pulled, concat (src s) = pulled ++ concat (src s')) /\
+  log_spec s o s' lg.
 Proof.
-  destruct o as [n|n|d m|d]; cbn [step fed_of]; intros H.
+  unfold step_log, log_spec. destruct o as [n|n|d m fs|d]; cbn [step_gen]; intros H.
   - (* receive *)
     unfold do_receive in H. destruct (n <? 1)%Z eqn:En1.
-    { injection H as <- <-. refine (conj eq_refl (conj _ (conj (fun h => h) _))); [discriminate|].
-      exists []. cbn. now rewrite app_nil_r. }
+    { injection H as <- <- <-. refine (conj eq_refl (conj _ (conj (fun h => h) (conj _ (conj _ _))))).
+      - discriminate.
+      - cbn. now rewrite app_nil_r.
+      - exists []. reflexivity.
+      - reflexivity. }
     destruct (buf s) as [|b0 b] eqn:Eb.
     + destruct (knd s) eqn:Ek.
       * destruct (pull KByte (Z.to_nat n) (src s)) as [[c r0]|] eqn:P.
-        -- injection H as <- <-. cbn [knd src buf consumed_of].
-           refine (conj eq_refl (conj _ (conj _ _))); [discriminate| |].
+        -- injection H as <- <- <-. cbn [knd src buf consumed_of]. pose proof (pull_spec _ _ _ _ _ P) as Hc.
+           refine (conj eq_refl (conj _ (conj _ (conj _ (conj _ Hc))))).
+           ++ discriminate.
            ++ intros Hs. assert (Hn1 : 1 <= Z.to_nat n) by lia. apply (pull_nonempty _ _ _ _ _ Hs Hn1 P).
-           ++ exists c. split; [apply (pull_spec _ _ _ _ _ P)|]. cbn. now rewrite !app_nil_r.
-        -- injection H as <- <-. refine (conj Ek (conj _ (conj (fun h => h) _))); [discriminate|].
-           exists []. split; [reflexivity|]. cbn. rewrite ?Eb. reflexivity.
-      * destruct (pull KObject default_max (src s)) as [[c r0]|] eqn:P.
-        -- pose proof (pull_spec _ _ _ _ _ P) as Hc.
+           ++ cbn. now rewrite !app_nil_r.
+           ++ exists c. exact Hc.
+        -- injection H as <- <- <-. refine (conj Ek (conj _ (conj (fun h => h) (conj _ (conj _ _))))).
+           ++ discriminate.
+           ++ cbn. rewrite Eb. reflexivity.
+           ++ exists []. reflexivity.
+           ++ reflexivity.
+      * cbn [negb] in H. destruct (skip_empty (src s)) as [[c r0]|] eqn:P.
+        -- destruct (skip_empty_some _ _ _ P) as (Hc0 & Hc & Hin).
            assert (Hne : chunks_nonempty (src s) -> chunks_nonempty r0)
-             by (intros Hs; apply (pull_nonempty _ _ _ _ _ Hs default_max_pos P)).
-           destruct (n <? Z.of_nat (length c))%Z; injection H as <- <-; cbn [knd src buf consumed_of].
-           ++ refine (conj eq_refl (conj _ (conj Hne _))); [discriminate|].
-              exists c. split; [exact Hc|]. cbn [app]. rewrite app_nil_r. apply firstn_cut_split.
-           ++ refine (conj eq_refl (conj _ (conj Hne _))); [discriminate|].
-              exists c. split; [exact Hc|]. cbn. now rewrite !app_nil_r.
-        -- injection H as <- <-. refine (conj Ek (conj _ (conj (fun h => h) _))); [discriminate|].
-           exists []. split; [reflexivity|]. cbn. rewrite ?Eb. reflexivity.
-    + injection H as <- <-. cbn [knd src buf consumed_of].
-      refine (conj eq_refl (conj _ (conj (fun h => h) _))); [discriminate|].
-      exists []. split; [reflexivity|]. rewrite !app_nil_r. apply firstn_cut_split.
+             by (intros Hs x Hx; apply Hs, Hin, Hx).
+           destruct (n <? Z.of_nat (length c))%Z; injection H as <- <- <-; cbn [knd src buf consumed_of].
+           ++ refine (conj eq_refl (conj _ (conj Hne (conj _ (conj _ Hc))))).
+              ** discriminate.
+              ** cbn [app]. rewrite app_nil_r. apply firstn_cut_split.
+              ** exists c. exact Hc.
+           ++ refine (conj eq_refl (conj _ (conj Hne (conj _ (conj _ Hc))))).
+              ** discriminate.
+              ** cbn. now rewrite !app_nil_r.
+              ** exists c. exact Hc.
+        -- injection H as <- <- <-. cbn [knd src buf consumed_of]. pose proof (skip_empty_none _ P) as Hc.
+           refine (conj eq_refl (conj _ (conj _ (conj _ (conj _ _))))).
+           ++ discriminate.
+           ++ intros _ x [].
+           ++ reflexivity.
+           ++ exists []. rewrite Hc. reflexivity.
+           ++ rewrite Hc. reflexivity.
+    + injection H as <- <- <-. cbn [knd src buf consumed_of].
+      refine (conj eq_refl (conj _ (conj (fun h => h) (conj _ (conj _ _))))).
+      * discriminate.
+      * rewrite !app_nil_r. apply firstn_cut_split.
+      * exists []. reflexivity.
+      * reflexivity.
   - (* receive_exactly *)
-    destruct (exactly_loop_spec (fuel_of s) s n s' r) as (Hk & pulled & H1 & H2 & H3 & H4);
+    unfold do_exactly in H. cbn [negb andb] in H. destruct (n <? 0)%Z eqn:En.
+    { injection H as <- <- <-. refine (conj eq_refl (conj _ (conj (fun h => h) (conj _ (conj _ _))))).
+      - discriminate.
+      - cbn. now rewrite app_nil_r.
+      - exists []. reflexivity.
+      - reflexivity. }
+    destruct (exactly_loop_spec (fuel_of s) s n s' r lg) as (Hk & H1 & H2 & H3 & H4);
       [unfold fuel_of; lia | exact H |].
-    refine (conj Hk (conj _ (conj H2 _))).
+    refine (conj Hk (conj _ (conj H2 (conj _ (conj _ H1))))).
     + intros ->. exact H4.
-    + exists pulled. split; [exact H1|]. cbn [app].
-      destruct r; try contradiction; cbn [consumed_of].
+    + destruct r; try contradiction; cbn [consumed_of].
       * destruct H4 as (-> & -> & _). rewrite app_nil_r. apply firstn_cut_split.
       * destruct H4 as (-> & _). reflexivity.
+    + exists lg. exact H1.
   - (* receive_until *)
-    destruct (until_loop_spec (fuel_of s) s d m 0 s' r) as (Hk & pieces & H1 & H2 & H3 & H4);
+    destruct (until_loop_spec (fuel_of s) s d m 0 fs s' r lg) as (Hk & k & H1 & H2 & H3 & H4 & H5);
       [intros j Hj; lia | unfold fuel_of; lia | exact H |].
-    refine (conj Hk (conj _ (conj H3 _))).
-    + intros ->. exact H4.
-    + exists (concat pieces). split; [exact H1|]. cbn [app].
-      destruct r; try contradiction; cbn [consumed_of].
-      * destruct H4 as (-> & _). now rewrite <- app_assoc.
-      * destruct H4 as (-> & _). reflexivity.
-      * destruct H4 as (-> & _). reflexivity.
+    refine (conj Hk (conj _ (conj H4 (conj _ (conj _ _))))).
+    + intros ->. exact H5.
+    + destruct r; try contradiction; cbn [consumed_of].
+      * destruct H5 as (-> & _). now rewrite <- app_assoc.
+      * destruct H5 as (-> & _). reflexivity.
+      * destruct H5 as (-> & _). reflexivity.
+    + rewrite H1. apply fetch_rest_suffix.
+    + exists k. split; assumption.
   - (* feed_data *)
-    injection H as <- <-. refine (conj eq_refl (conj _ (conj (fun h => h) _))); [discriminate|].
-    exists []. cbn. now rewrite app_nil_r.
+    injection H as <- <- <-. refine (conj eq_refl (conj _ (conj (fun h => h) (conj _ (conj _ _))))).
+    + discriminate.
+    + reflexivity.
+    + exists []. reflexivity.
+    + split; reflexivity.
 Qed.
 
 Theorem step_never_out_of_fuel s o : snd (step s o) <> RFuel.
 Proof.
-  destruct (step s o) as [s' r] eqn:E. apply (step_conservation _ _ _ _ E).
+  unfold step. destruct (step_log s o) as [[s' r] lg] eqn:E. apply (step_conservation _ _ _ _ _ E).
 Qed.
 
 (* ------------------------------------------------------------------------------------------------ *)
 (* op sequences                                                                                     *)
 (* ------------------------------------------------------------------------------------------------ *)
 
-Lemma pulled_of_eq s s' pulled : concat (src s) = pulled ++ concat (src s') -> pulled_of s s' = pulled.
-Proof.
-  intros H. unfold pulled_of. rewrite H, app_length.
-  replace (length pulled + length (concat (src s')) - length (concat (src s'))) with (length pulled) by lia.
-  rewrite firstn_app, Nat.sub_diag, firstn_all. cbn. apply app_nil_r.
-Qed.
-
-Lemma final_cons s o r : final step s (o :: r) = final step (fst (step s o)) r.
+Lemma final_cons s o r : final step s (o :: r) = final step (fst (fst (step_log s o))) r.
 Proof. reflexivity. Qed.
 
-(* C16 clause 1: bytes handed out (plus delimiters consumed), followed by the buffer, are exactly the fed and received
-   bytes in arrival order: nothing dropped, duplicated or reordered *)
+(* C16 clause 1: bytes handed out (plus delimiters consumed), followed by the buffer, are exactly the bytes that
+   arrived (fed between or during calls, read from the wrapped stream) in arrival order: nothing dropped, duplicated
+   or reordered *)
 Theorem buf_conservation : forall ops s,
   buf s ++ arrived_run s ops = consumed_run s ops ++ buf (final step s ops).
 Proof.
   induction ops as [|o r IH]; intros s.
   - cbn. now rewrite app_nil_r.
-  - rewrite final_cons. cbn [arrived_run consumed_run]. destruct (step s o) as [s1 out] eqn:E. cbn [fst].
-    destruct (step_conservation _ _ _ _ E) as (_ & _ & _ & pulled & Hc & Hb).
-    assert (Ha : arrived_of s o s1 = fed_of o ++ pulled).
-    { destruct o; cbn [arrived_of fed_of app]; try (apply pulled_of_eq; exact Hc).
-      (* feed: nothing is read from the wrapped stream *)
-      cbn [step] in E. injection E as <- _. cbn [src] in Hc.
-      assert (length (concat (src s)) = length (pulled ++ concat (src s))) by (now rewrite <- Hc).
-      rewrite app_length in H. destruct pulled; [now rewrite app_nil_r|cbn in H; lia]. }
-    rewrite Ha, app_assoc. rewrite (app_assoc (buf s)). rewrite <- (app_assoc (buf s)) .
-    rewrite Hb, <- !app_assoc. f_equal. apply IH.
+  - rewrite final_cons. cbn [arrived_run consumed_run]. destruct (step_log s o) as [[s1 out] lg] eqn:E. cbn [fst].
+    destruct (step_conservation _ _ _ _ _ E) as (_ & _ & _ & Hb & _).
+    rewrite app_assoc, Hb, <- !app_assoc. f_equal. apply IH.
 Qed.
 
-(* ... and the received bytes are, in order, exactly what left the wrapped stream *)
+(* the wrapped stream is only ever read from the front *)
 Theorem buf_source_order : forall ops s,
-  received_run s ops ++ concat (src (final step s ops)) = concat (src s).
+  exists pulled, pulled ++ concat (src (final step s ops)) = concat (src s).
 Proof.
   induction ops as [|o r IH]; intros s.
-  - reflexivity.
-  - rewrite final_cons. cbn [received_run]. destruct (step s o) as [s1 out] eqn:E. cbn [fst].
-    destruct (step_conservation _ _ _ _ E) as (_ & _ & _ & pulled & Hc & Hb).
-    assert (Ha : received_of s o s1 = pulled).
-    { destruct o; cbn [received_of]; try (apply pulled_of_eq; exact Hc).
-      cbn [step] in E. injection E as <- _. cbn [src] in Hc.
-      assert (length (concat (src s)) = length (pulled ++ concat (src s))) by (now rewrite <- Hc).
-      rewrite app_length in H. destruct pulled; [reflexivity|cbn in H; lia]. }
-    rewrite Ha, <- app_assoc, IH. symmetry. exact Hc.
+  - exists []. reflexivity.
+  - rewrite final_cons. destruct (step_log s o) as [[s1 out] lg] eqn:E. cbn [fst].
+    destruct (step_conservation _ _ _ _ _ E) as (_ & _ & _ & _ & (p1 & Hp) & _).
+    destruct (IH s1) as [p2 Hp2]. exists (p1 ++ p2). rewrite <- app_assoc, Hp2. symmetry. exact Hp.
 Qed.
 
-Lemma arrived_received_no_feed : forall ops s,
-  forallb (fun o => negb (is_feed o)) ops = true -> arrived_run s ops = received_run s ops.
+Lemma log_no_feed s o s' lg : no_feed o = true -> log_spec s o s' lg -> lg ++ concat (src s') = concat (src s).
+Proof.
+  unfold log_spec. destruct o as [n|n|d m fs|d]; cbn [no_feed]; intros Hn H; try (symmetry; exact H).
+  - destruct fs; [|discriminate]. destruct H as (k & -> & ->). apply fetch_arrivals_nofeed.
+  - discriminate.
+Qed.
+
+Lemma arrived_no_feed : forall ops s,
+  forallb no_feed ops = true -> arrived_run s ops ++ concat (src (final step s ops)) = concat (src s).
 Proof.
   induction ops as [|o r IH]; intros s H; [reflexivity|].
   cbn [forallb] in H. apply andb_true_iff in H as [Ho Hr].
-  cbn [arrived_run received_run]. destruct (step s o) as [s1 out]. rewrite (IH s1 Hr).
-  destruct o; try reflexivity. discriminate.
+  rewrite final_cons. cbn [arrived_run]. destruct (step_log s o) as [[s1 out] lg] eqn:E. cbn [fst].
+  destruct (step_conservation _ _ _ _ _ E) as (_ & _ & _ & _ & _ & Hl).
+  rewrite <- app_assoc, (IH s1 Hr). apply (log_no_feed _ _ _ _ Ho Hl).
 Qed.
 
 (* without feed_data the whole stream is constant: handed out ++ buffer ++ still in the wrapped stream *)
 Theorem buf_conservation_total ops s :
-  forallb (fun o => negb (is_feed o)) ops = true ->
+  forallb no_feed ops = true ->
   consumed_run s ops ++ buf (final step s ops) ++ concat (src (final step s ops)) = buf s ++ concat (src s).
 Proof.
-  intros H. rewrite app_assoc, <- buf_conservation, (arrived_received_no_feed _ _ H).
-  rewrite <- app_assoc, buf_source_order. reflexivity.
+  intros H. rewrite app_assoc, <- buf_conservation, <- app_assoc, (arrived_no_feed _ _ H). reflexivity.
 Qed.
 
 Theorem kind_constant ops : forall s, knd (final step s ops) = knd s.
 Proof.
   induction ops as [|o r IH]; intros s; [reflexivity|].
-  rewrite final_cons, IH. destruct (step s o) as [s1 out] eqn:E. apply (step_conservation _ _ _ _ E).
+  rewrite final_cons, IH. destruct (step_log s o) as [[s1 out] lg] eqn:E. apply (step_conservation _ _ _ _ _ E).
 Qed.
 
 Theorem chunks_nonempty_invariant ops : forall s,
   chunks_nonempty (src s) -> chunks_nonempty (src (final step s ops)).
 Proof.
   induction ops as [|o r IH]; intros s H; [exact H|].
-  rewrite final_cons. apply IH. destruct (step s o) as [s1 out] eqn:E.
-  apply (step_conservation _ _ _ _ E), H.
+  rewrite final_cons. apply IH. destruct (step_log s o) as [[s1 out] lg] eqn:E.
+  apply (step_conservation _ _ _ _ _ E), H.
 Qed.
 
 (* ------------------------------------------------------------------------------------------------ *)
 (* the per-call clauses                                                                             *)
 (* ------------------------------------------------------------------------------------------------ *)
 
-(* a call that fails hands out nothing and leaves the logical stream (buffer ++ wrapped stream) unchanged; what it
-   had already read stays in the buffer *)
-Theorem buf_fail_consumes_nothing s o s' r : step s o = (s', r) -> failed r ->
+(* a call that fails hands out nothing; whatever arrived during it (read or fed) is in the buffer, in order, behind
+   what was there; without feeds during the call the logical stream (buffer ++ wrapped stream) is unchanged *)
+Theorem buf_fail_consumes_nothing s o s' r lg : step_log s o = (s', r, lg) -> failed r ->
   consumed_of o r = [] /\
-  buf s' ++ concat (src s') = buf s ++ concat (src s) /\
-  (exists extra, buf s' = buf s ++ extra /\ concat (src s) = extra ++ concat (src s')).
+  buf s' = buf s ++ lg /\
+  (exists pulled, concat (src s) = pulled ++ concat (src s')) /\
+  (no_feed o = true -> buf s' ++ concat (src s') = buf s ++ concat (src s)).
 Proof.
-  intros H F. destruct (step_conservation _ _ _ _ H) as (_ & _ & _ & pulled & Hc & Hb).
-  assert (Hfed : fed_of o = []).
-  { destruct o; try reflexivity. cbn [step] in H. injection H as _ <-.
-    destruct F as [F|[F|[F|F]]]; discriminate. }
+  intros H F. destruct (step_conservation _ _ _ _ _ H) as (_ & _ & _ & Hb & Hp & Hl).
   assert (Hcons : consumed_of o r = []).
   { destruct F as [ -> | [ -> | [ -> | -> ] ] ]; reflexivity. }
-  rewrite Hfed, Hcons in Hb. cbn [app] in Hb.
-  refine (conj Hcons (conj _ _)).
-  - rewrite <- Hb, Hc, app_assoc. reflexivity.
-  - exists pulled. split; [now symmetry|exact Hc].
+  rewrite Hcons in Hb. cbn [app] in Hb.
+  refine (conj Hcons (conj (eq_sym Hb) (conj Hp _))).
+  intros Hn. rewrite <- Hb, <- app_assoc, (log_no_feed _ _ _ _ Hn Hl). reflexivity.
 Qed.
 
+(* receive(n): for EVERY chunking of an object stream, empty items included *)
 Theorem buf_receive_spec s n s' r : step s (Receive n) = (s', r) ->
   ((n < 1)%Z -> r = RValueError /\ s' = s) /\
-  ((1 <= n)%Z -> chunks_nonempty (src s) ->
+  ((1 <= n)%Z -> (knd s = KByte -> chunks_nonempty (src s)) ->
      (exists x, r = RBytes x /\ 1 <= length x <= Z.to_nat n /\
                 (buf s <> [] -> x = firstn (Z.to_nat n) (buf s) /\ src s' = src s)) \/
-     (r = REnd /\ buf s = [] /\ src s = [] /\ s' = s)).
+     (r = REnd /\ buf s = [] /\ concat (src s) = [] /\ buf s' = [] /\ src s' = [])).
 Proof.
-  cbn [step]. unfold do_receive. intros H. split.
-  - intros Hn. destruct (n <? 1)%Z eqn:E; [|lia]. injection H as <- <-. auto.
+  unfold step, step_log. cbn [step_gen]. unfold do_receive. intros H. split.
+  - intros Hn. destruct (n <? 1)%Z eqn:E; [|lia]. cbn [fst] in H. injection H as <- <-. auto.
   - intros Hn Hs. destruct (n <? 1)%Z eqn:E; [lia|].
     destruct (buf s) as [|b0 b] eqn:Eb.
     + destruct (knd s) eqn:Ek.
-      * destruct (pull KByte (Z.to_nat n) (src s)) as [[c r0]|] eqn:P.
+      * specialize (Hs eq_refl).
+        destruct (pull KByte (Z.to_nat n) (src s)) as [[c r0]|] eqn:P; cbn [fst] in H.
         -- injection H as <- <-. left. exists c.
            assert (Hn1 : 1 <= Z.to_nat n) by lia.
            destruct (pull_nonempty _ _ _ _ _ Hs Hn1 P) as [Hc _].
            pose proof (pull_byte_bound _ _ _ _ P) as Hb.
            refine (conj eq_refl (conj _ _)); [|congruence].
            destruct c; [congruence|cbn [length] in *; lia].
-        -- injection H as <- <-. right. apply pull_none in P. auto.
-      * destruct (pull KObject default_max (src s)) as [[c r0]|] eqn:P.
-        -- destruct (pull_nonempty _ _ _ _ _ Hs default_max_pos P) as [Hc _].
-           destruct (n <? Z.of_nat (length c))%Z eqn:En; injection H as <- <-; left.
+        -- injection H as <- <-. right. apply pull_none in P. rewrite P. auto.
+      * destruct (skip_empty (src s)) as [[c r0]|] eqn:P.
+        -- destruct (skip_empty_some _ _ _ P) as (Hc & _ & _).
+           destruct (n <? Z.of_nat (length c))%Z eqn:En; cbn [fst] in H; injection H as <- <-; left.
            ++ exists (firstn (Z.to_nat n) c). refine (conj eq_refl (conj _ _)); [|congruence].
               rewrite firstn_length. lia.
            ++ exists c. refine (conj eq_refl (conj _ _)); [|congruence].
               destruct c; [congruence|cbn [length] in *; lia].
-        -- injection H as <- <-. right. apply pull_none in P. auto.
-    + injection H as <- <-. left. exists (firstn (Z.to_nat n) (b0 :: b)).
+        -- cbn [fst] in H. injection H as <- <-. right. apply skip_empty_none in P. auto.
+    + cbn [fst] in H. injection H as <- <-. left. exists (firstn (Z.to_nat n) (b0 :: b)).
       refine (conj eq_refl (conj _ _)).
       * rewrite firstn_length. cbn [length]. lia.
       * intros _. split; reflexivity.
 Qed.
 
-Theorem buf_exactly_spec s n s' r : (0 <= n)%Z -> step s (Exactly n) = (s', r) ->
-  ((exists x, r = RBytes x /\ length x = Z.to_nat n /\
-              x ++ buf s' ++ concat (src s') = buf s ++ concat (src s)) \/
-   (r = RIncomplete /\ src s' = [] /\ buf s' = buf s ++ concat (src s))) /\
-  (r = RIncomplete <-> (Z.of_nat (length (buf s ++ concat (src s))) < n)%Z).
+Theorem buf_exactly_spec s n s' r : step s (Exactly n) = (s', r) ->
+  ((n < 0)%Z -> r = RValueError /\ s' = s) /\
+  ((0 <= n)%Z ->
+   ((exists x, r = RBytes x /\ length x = Z.to_nat n /\
+               x ++ buf s' ++ concat (src s') = buf s ++ concat (src s)) \/
+    (r = RIncomplete /\ src s' = [] /\ buf s' = buf s ++ concat (src s))) /\
+   (r = RIncomplete <-> (Z.of_nat (length (buf s ++ concat (src s))) < n)%Z)).
 Proof.
-  intros Hn H. cbn [step] in H.
-  destruct (exactly_loop_spec (fuel_of s) s n s' r) as (Hk & pulled & H1 & H2 & H3 & H4);
-    [unfold fuel_of; lia | exact H |].
-  destruct r; try contradiction.
+  unfold step, step_log. cbn [step_gen]. unfold do_exactly. cbn [negb andb]. intros H. split.
+  { intros Hn. destruct (n <? 0)%Z eqn:E; [|lia]. cbn [fst] in H. injection H as <- <-. auto. }
+  intros Hn. destruct (n <? 0)%Z eqn:E; [lia|].
+  destruct (exactly_loop (fuel_of s) s n) as [[s1 r1] lg] eqn:L. cbn [fst] in H. injection H as <- <-.
+  destruct (exactly_loop_spec (fuel_of s) s n s1 r1 lg) as (Hk & H1 & H2 & H3 & H4);
+    [unfold fuel_of; lia | exact L |].
+  destruct r1; try contradiction.
   - destruct H4 as (Hx & Hb & Hlen).
-    assert (Hcut : cut n (buf s ++ pulled) = Z.to_nat n).
-    { unfold cut. destruct (0 <=? n)%Z eqn:E; [reflexivity|lia]. }
+    assert (Hcut : cut n (buf s ++ lg) = Z.to_nat n).
+    { unfold cut. destruct (0 <=? n)%Z eqn:E0; [reflexivity|lia]. }
     rewrite Hcut in Hx, Hb.
     split.
     + left. exists b. refine (conj eq_refl (conj _ _)).
@@ -585,115 +663,174 @@ Proof.
     + split; [discriminate|]. intros Hlt. exfalso.
       rewrite H1, app_assoc, app_length in Hlt. lia.
   - destruct H4 as (Hb & Hsrc & Hlen).
-    assert (Hp : pulled = concat (src s)) by (rewrite H1, Hsrc; cbn; now rewrite app_nil_r).
+    assert (Hp : lg = concat (src s)) by (rewrite H1, Hsrc; cbn; now rewrite app_nil_r).
     split.
     + right. rewrite <- Hp. auto.
     + split; [intros _|reflexivity]. rewrite <- Hp, <- Hb. exact Hlen.
 Qed.
 
-(* receive_until: the exact characterisation (pieces = the reads made by the call) *)
-Theorem buf_until_spec s d m s' r : step s (Until d m) = (s', r) ->
-  exists pieces,
-    concat (src s) = concat pieces ++ concat (src s') /\
-    (forall k, k < length pieces ->
-       ~ occurs d (buf s ++ concat (firstn k pieces)) /\
-       (Z.of_nat (length (buf s ++ concat (firstn k pieces))) < m)%Z) /\
-    match r with
-    | RBytes x => buf s ++ concat pieces = x ++ d ++ buf s' /\
-                  (forall j, j < length x -> ~ occurs_at d (buf s ++ concat pieces) j)
-    | RNotFound => buf s' = buf s ++ concat pieces /\ ~ occurs d (buf s') /\ (m <= Z.of_nat (length (buf s')))%Z
-    | RIncomplete => buf s' = buf s ++ concat pieces /\ src s' = [] /\ ~ occurs d (buf s') /\
-                     (Z.of_nat (length (buf s')) < m)%Z
-    | _ => False
-    end.
+(* receive_until: the exact characterisation, for every feed_data made while the call waits *)
+Theorem buf_until_spec s d m fs s' r lg : step_log s (Until d m fs) = (s', r, lg) ->
+  until_post (knd s) (buf s) (src s) d m fs s' r lg.
 Proof.
-  intros H. cbn [step] in H.
-  destruct (until_loop_spec (fuel_of s) s d m 0 s' r) as (Hk & pieces & H1 & H2 & H3 & H4);
-    [intros j Hj; lia | unfold fuel_of; lia | exact H |].
-  exists pieces. auto.
+  intros H. unfold step_log in H. cbn [step_gen] in H.
+  apply (until_loop_spec (fuel_of s) s d m 0 fs s' r lg); [intros j Hj; lia | unfold fuel_of; lia | exact H].
 Qed.
 
-(* ... and its consequences in terms of the whole stream *)
-Theorem buf_until_result s d m s' x : step s (Until d m) = (s', RBytes x) ->
-  buf s ++ concat (src s) = x ++ d ++ buf s' ++ concat (src s') /\
-  (forall j, j < length x -> ~ occurs_at d (buf s ++ concat (src s)) j) /\
+(* receive_until never includes the delimiter: the result is what precedes the FIRST occurrence in arrival order, the
+   delimiter is consumed, the rest stays buffered - whatever was fed during the call *)
+Theorem buf_until_result s d m fs s' x lg : step_log s (Until d m fs) = (s', RBytes x, lg) ->
+  buf s ++ lg = x ++ d ++ buf s' /\
+  (forall j, j < length x -> ~ occurs_at d (buf s ++ lg) j) /\
   (d <> [] -> ~ occurs d x).
 Proof.
-  intros H. destruct (buf_until_spec _ _ _ _ _ H) as (pieces & H1 & _ & H3 & H4).
-  assert (Hfirst : forall j, j < length x -> ~ occurs_at d (buf s ++ concat (src s)) j).
-  { intros j Hj Hocc. apply (H4 j Hj). rewrite H1, app_assoc in Hocc.
-    apply (occurs_at_app_l _ _ _ _ Hocc). rewrite H3, !app_length. lia. }
-  refine (conj _ (conj Hfirst _)).
-  - rewrite H1, app_assoc, H3, <- !app_assoc. reflexivity.
-  - intros Hd [j Hj]. pose proof (occurs_at_len _ _ _ Hj) as Hl.
-    assert (0 < length d) by (destruct d; [congruence|cbn; lia]).
-    apply (H4 j); [lia|]. rewrite H3. apply occurs_at_app_r. exact Hj.
+  intros H. destruct (buf_until_spec _ _ _ _ _ _ _ H) as (k & _ & _ & _ & _ & H3 & H4).
+  refine (conj H3 (conj H4 _)).
+  intros Hd [j Hj]. pose proof (occurs_at_len _ _ _ Hj) as Hl.
+  assert (0 < length d) by (destruct d; [congruence|cbn; lia]).
+  apply (H4 j); [lia|]. rewrite H3. apply occurs_at_app_r. exact Hj.
+Qed.
+
+(* without feeds during the call, in terms of the whole stream *)
+Theorem buf_until_result_stream s d m s' x lg : step_log s (Until d m []) = (s', RBytes x, lg) ->
+  buf s ++ concat (src s) = x ++ d ++ buf s' ++ concat (src s') /\
+  (forall j, j < length x -> ~ occurs_at d (buf s ++ concat (src s)) j).
+Proof.
+  intros H. destruct (buf_until_result _ _ _ _ _ _ _ H) as (H3 & H4 & _).
+  destruct (step_conservation _ _ _ _ _ H) as (_ & _ & _ & _ & _ & Hl).
+  pose proof (log_no_feed s (Until d m []) s' lg eq_refl Hl) as H1.
+  split.
+  - rewrite <- H1, app_assoc, H3, <- !app_assoc. reflexivity.
+  - intros j Hj Hocc. apply (H4 j Hj). rewrite <- H1, app_assoc in Hocc.
+    apply (occurs_at_app_l _ _ _ _ Hocc). rewrite H3, !app_length. lia.
 Qed.
 
 (* DelimiterNotFound only if the delimiter does not occur within the first max_bytes bytes *)
-Theorem buf_until_notfound s d m s' : step s (Until d m) = (s', RNotFound) ->
+Theorem buf_until_notfound s d m s' lg : step_log s (Until d m []) = (s', RNotFound, lg) ->
   forall i, occurs_at d (buf s ++ concat (src s)) i -> (m < Z.of_nat (i + length d))%Z.
 Proof.
-  intros H i Hocc. destruct (buf_until_spec _ _ _ _ _ H) as (pieces & H1 & _ & Hb & Hno & Hlen).
+  intros H i Hocc. destruct (buf_until_spec _ _ _ _ _ _ _ H) as (k & _ & _ & _ & _ & Hb & Hno & Hlen).
+  destruct (step_conservation _ _ _ _ _ H) as (_ & _ & _ & _ & _ & Hl).
+  pose proof (log_no_feed s (Until d m []) s' lg eq_refl Hl) as H1.
   destruct (Z.ltb_spec m (Z.of_nat (i + length d))) as [|Hge]; [assumption|]. exfalso.
-  apply Hno. exists i. rewrite Hb. rewrite H1, app_assoc in Hocc.
+  apply Hno. exists i. rewrite Hb. rewrite <- H1, app_assoc in Hocc.
   apply (occurs_at_app_l _ _ _ _ Hocc). rewrite <- Hb. lia.
 Qed.
 
+(* ... also with feeds during the call: the buffer the call gave up on holds no delimiter and >= max_bytes bytes *)
+Theorem buf_until_notfound_fed s d m fs s' lg : step_log s (Until d m fs) = (s', RNotFound, lg) ->
+  buf s' = buf s ++ lg /\ ~ occurs d (buf s') /\ (m <= Z.of_nat (length (buf s')))%Z.
+Proof.
+  intros H. destruct (buf_until_spec _ _ _ _ _ _ _ H) as (k & _ & _ & _ & _ & H5). exact H5.
+Qed.
+
 (* IncompleteRead only if the delimiter occurs nowhere in the rest of the stream *)
-Theorem buf_until_incomplete s d m s' : step s (Until d m) = (s', RIncomplete) ->
+Theorem buf_until_incomplete s d m s' lg : step_log s (Until d m []) = (s', RIncomplete, lg) ->
   ~ occurs d (buf s ++ concat (src s)) /\ (Z.of_nat (length (buf s ++ concat (src s))) < m)%Z.
 Proof.
-  intros H. destruct (buf_until_spec _ _ _ _ _ H) as (pieces & H1 & _ & Hb & Hsrc & Hno & Hlen).
-  rewrite Hsrc in H1. cbn in H1. rewrite app_nil_r in H1. rewrite H1, <- Hb. auto.
+  intros H. destruct (buf_until_spec _ _ _ _ _ _ _ H) as (k & Hr & Hlg & Hj & _ & Hb & Hsrc & k0 & -> & Hk).
+  destruct (step_conservation _ _ _ _ _ H) as (_ & _ & _ & _ & _ & Hl).
+  pose proof (log_no_feed s (Until d m []) s' lg eq_refl Hl) as H1. rewrite Hsrc in H1. cbn in H1.
+  rewrite app_nil_r in H1.
+  (* the last fetch met the end of the stream: what had arrived before it is everything *)
+  rewrite skipn_nil in Hk. cbn [hd] in Hk. rewrite app_nil_r in Hk.
+  destruct (Hj k0 ltac:(lia)) as [Hno Hlen]. rewrite <- Hk, H1 in Hno, Hlen. split; assumption.
+Qed.
+
+(* ------------------------------------------------------------------------------------------------ *)
+(* the tree before the fixes F27 / F28 / F29 violates the clauses (witnesses; a=97 b=98 \n=10)       *)
+(* ------------------------------------------------------------------------------------------------ *)
+
+Local Open Scope Z_scope.
+
+(* F27: "a\n" "b" is fed while receive_until(b"\n") waits for the chunk "c\n": the old offset skips the fed bytes and
+   the call returns "a\nbc" - with the delimiter inside; HEAD returns "a" *)
+Theorem until_feed_refuted_pinned : exists s d m fs s' x lg,
+  step_pinned s (Until d m fs) = (s', RBytes x, lg) /\ d <> [] /\ occurs d x.
+Proof.
+  exists (init KObject [[99; 10]]), [10], 100, [[97; 10; 98]].
+  eexists. eexists. eexists. split; [vm_compute; reflexivity|]. split; [discriminate|].
+  exists 1%nat. exists [97], [98; 99]. split; reflexivity.
+Qed.
+
+Example until_feed_head :
+  step_log (init KObject [[99; 10]]) (Until [10] 100 [[97; 10; 98]])
+  = (mk KObject [98; 99; 10] [], RBytes [97], [97; 10; 98; 99; 10]).
+Proof. vm_compute. reflexivity. Qed.
+
+(* F28: an empty item of an object stream came back as a 0-byte result *)
+Theorem receive_empty_refuted_pinned : exists s n s' lg,
+  knd s = KObject /\ (1 <= n) /\ step_pinned s (Receive n) = (s', RBytes [], lg) /\ concat (src s) <> [].
+Proof.
+  exists (init KObject [[]; [97]]), 5. eexists. eexists.
+  refine (conj eq_refl (conj _ (conj _ _))); [lia | vm_compute; reflexivity | discriminate].
+Qed.
+
+Example receive_empty_head :
+  step (init KObject [[]; []; [97]]) (Receive 5) = (mk KObject [] [], RBytes [97]) /\
+  step (init KObject [[]; []]) (Receive 5) = (mk KObject [] [], REnd).
+Proof. vm_compute. auto. Qed.
+
+(* F29: a negative count consumed data, and how much depended on the chunking *)
+Theorem exactly_negative_refuted_pinned : exists c1 c2 n x1 x2 s1 s2 l1 l2,
+  concat c1 = concat c2 /\ n < 0 /\
+  step_pinned (fst (fst (step_pinned (init KObject c1) (Receive 1)))) (Exactly n) = (s1, RBytes x1, l1) /\
+  step_pinned (fst (fst (step_pinned (init KObject c2) (Receive 1)))) (Exactly n) = (s2, RBytes x2, l2) /\
+  x1 <> x2.
+Proof.
+  exists [[97; 98; 99]], [[97]; [98; 99]], (-1). do 6 eexists.
+  refine (conj eq_refl (conj _ (conj _ (conj _ _)))); [lia | vm_compute; reflexivity | vm_compute; reflexivity | discriminate].
 Qed.
 
 (* ------------------------------------------------------------------------------------------------ *)
 (* non-vacuity and boundary witnesses (a=97 b=98 ;=59 \n=10)                                        *)
 (* ------------------------------------------------------------------------------------------------ *)
 
-Local Open Scope Z_scope.
-
 (* the delimiter ";\n" straddles two chunks: found thanks to offset = |buf| - |d| + 1 *)
 Example ex_until_straddle :
-  step (init KObject [[97; 59]; [10; 98]]) (Until [59; 10] 10%Z)
+  step (init KObject [[97; 59]; [10; 98]]) (Until [59; 10] 10 [])
   = (mk KObject [98] [], RBytes [97]).
 Proof. vm_compute. reflexivity. Qed.
 
 (* boundary: 3 bytes buffered, max_bytes = 3, no delimiter -> DelimiterNotFound without a further read;
    the same bytes in one chunk with the delimiter -> found although beyond max_bytes *)
 Example ex_until_boundary :
-  snd (step (init KObject [[97; 98; 97]; [59]]) (Until [59] 3%Z)) = RNotFound /\
-  snd (step (init KObject [[97; 98]; [97]; [59]]) (Until [59] 3%Z)) = RNotFound /\
-  snd (step (init KObject [[97; 98]; [59]]) (Until [59] 3%Z)) = RBytes [97; 98] /\
-  snd (step (init KObject [[97; 98; 97; 59]]) (Until [59] 3%Z)) = RBytes [97; 98; 97].
+  snd (step (init KObject [[97; 98; 97]; [59]]) (Until [59] 3 [])) = RNotFound /\
+  snd (step (init KObject [[97; 98]; [97]; [59]]) (Until [59] 3 [])) = RNotFound /\
+  snd (step (init KObject [[97; 98]; [59]]) (Until [59] 3 [])) = RBytes [97; 98] /\
+  snd (step (init KObject [[97; 98; 97; 59]]) (Until [59] 3 [])) = RBytes [97; 98; 97].
+Proof. vm_compute. auto. Qed.
+
+(* data fed during the last wait of a call that then meets the end of the stream stays buffered *)
+Example ex_until_feed_then_eof :
+  step_log (init KByte [[97]]) (Until [59] 9 [[]; [98; 59]])
+  = (mk KByte [97; 98; 59] [], RIncomplete, [97; 98; 59]) /\
+  snd (step (mk KByte [97; 98; 59] []) (Until [59] 9 [])) = RBytes [97; 98].
 Proof. vm_compute. auto. Qed.
 
 (* a failing call keeps what it read in the buffer; the next call gets it *)
 Example ex_fail_keeps_bytes :
-  let s1 := fst (step (init KByte [[97]; [98]]) (Exactly 5%Z)) in
-  snd (step (init KByte [[97]; [98]]) (Exactly 5%Z)) = RIncomplete /\ buf s1 = [97; 98] /\ src s1 = [] /\
-  snd (step s1 (Receive 1%Z)) = RBytes [97].
+  let s1 := fst (step (init KByte [[97]; [98]]) (Exactly 5)) in
+  snd (step (init KByte [[97]; [98]]) (Exactly 5)) = RIncomplete /\ buf s1 = [97; 98] /\ src s1 = [] /\
+  snd (step s1 (Receive 1)) = RBytes [97].
 Proof. vm_compute. auto. Qed.
 
 Example ex_receive_cases :
-  snd (step (init KObject [[97; 98; 59]]) (Receive 2%Z)) = RBytes [97; 98] /\
-  buf (fst (step (init KObject [[97; 98; 59]]) (Receive 2%Z))) = [59] /\
-  snd (step (init KByte [[97; 98; 59]]) (Receive 2%Z)) = RBytes [97; 98] /\
-  src (fst (step (init KByte [[97; 98; 59]]) (Receive 2%Z))) = [[59]] /\
-  snd (step (init KByte []) (Receive 2%Z)) = REnd /\
-  snd (step (init KByte [[97]]) (Receive 0%Z)) = RValueError.
+  snd (step (init KObject [[97; 98; 59]]) (Receive 2)) = RBytes [97; 98] /\
+  buf (fst (step (init KObject [[97; 98; 59]]) (Receive 2))) = [59] /\
+  snd (step (init KByte [[97; 98; 59]]) (Receive 2)) = RBytes [97; 98] /\
+  src (fst (step (init KByte [[97; 98; 59]]) (Receive 2))) = [[59]] /\
+  snd (step (init KByte []) (Receive 2)) = REnd /\
+  snd (step (init KByte [[97]]) (Receive 0)) = RValueError.
 Proof. vm_compute. auto 10. Qed.
 
-(* receive_exactly does not validate its argument: a negative count slices like Python does *)
 Example ex_exactly_negative :
-  step (mk KByte [97; 98; 59] []) (Exactly (-1)%Z) = (mk KByte [59] [], RBytes [97; 98]).
+  step (mk KByte [97; 98; 59] []) (Exactly (-1)) = (mk KByte [97; 98; 59] [], RValueError).
 Proof. vm_compute. reflexivity. Qed.
 
 Example ex_conservation_run :
   let s := init KByte [[97; 59]; [10; 98; 98]; [59]] in
-  let ops := [Until [59; 10] 8%Z; Feed [97]; Receive 2%Z; Exactly 3%Z; Until [59] 2%Z] in
-  consumed_run s ops = [97; 59; 10; 98; 98; 97; 59] /\ arrived_run s ops = [97; 59; 10; 98; 98; 97; 59] /\
-  received_run s ops = [97; 59; 10; 98; 98; 59] /\
-  buf (final step s ops) = [] /\ src (final step s ops) = [].
-Proof. vm_compute. auto. Qed.
+  let ops := [Until [59; 10] 8 [[]; [97; 97]]; Feed [97]; Receive 2; Exactly 3; Until [59] 2 []] in
+  buf s ++ arrived_run s ops = consumed_run s ops ++ buf (final step s ops) /\
+  consumed_run s ops <> [] /\ src (final step s ops) = [].
+Proof. vm_compute. split; [reflexivity|]. split; [discriminate|reflexivity]. Qed.
